@@ -130,6 +130,21 @@ def run(rep, tier, seed, replay=None):
                         cid = f"t{k}"
                         cases.append(f"{cid} realtcp {fam} {ms} {mode} {prefix}")
                         meta[cid] = ("tcp", ms, 0, 0)
+    # ---- several receives on ONE socket with different requested sizes (a socket serves a whole query: 16 bytes for a handshake,
+    # 2048 for the data, 16 again after a retry …): each returns the datagram that was sent, cut at the size asked for THIS time
+    seq_cases = {}
+    if replay is None:
+        SIZES = [16, 2048, 16, None, 1400, 0, 65535, 1, 6144, 1024, 1025]
+        for fam in ("v4", "v6", "v4m"):
+            for j in range(3 if tier == "quick" else 20):
+                steps = []
+                for _ in range(rnd.choice([3, 5, 8])):
+                    size = rnd.choice(SIZES)
+                    ln = rnd.choice([0, 1, 15, 16, 17, 100, 1023, 1024, 1025, 1400, 2048, 2049, 6145, 9000])
+                    steps.append((ln, size))
+                cid = f"sq{fam}{j}"
+                cases.append(f"{cid} realseq {fam} 500000000 " + ",".join(f"{ln}:{'-' if sz is None else sz}:m" for ln, sz in steps))
+                seq_cases[cid] = steps
     # ---- every UDP family on real sockets: a loopback server replays the scripted exchange (answering the n-th request
     # with the deliveries the model consumed after its n-th send) up to a cut point and then falls silent; result,
     # requests seen by the server and wall clock against the model of the same (cut) exchange
@@ -217,7 +232,7 @@ def run(rep, tier, seed, replay=None):
                     break
         rep.oracle_failures += fs
         rep.divergences += dvs
-    model = vlib.run_model([c for c in cases if c.split(" ")[1] != "realfam"])
+    model = vlib.run_model([c for c in cases if c.split(" ")[1] not in ("realfam", "realseq")])
     # the long-timeout cases side by side (they sleep most of the time), the rest one after the other
     slow = [c for c in cases if c.split(" ")[1] in ("realfam", "realudp", "realgs2", "realjava") and c.split(" ")[3] in ("400", str(LONG))]
     impl, panics = vlib.run_impl([c for c in cases if c not in slow], tag="c12")
@@ -237,6 +252,11 @@ def run(rep, tier, seed, replay=None):
             rep.seen(c, i)
         count("kind:" + c.split(" ")[1])
         fails += [(s, d, c, i) for s, d in netprops.crash_oracle(c, i, m, panic)]
+        if cid in seq_cases:
+            want = ",".join(f"{min(ln, 1024 if sz is None else sz)}/T" for ln, sz in seq_cases[cid])
+            if i != "OK " + want:
+                fails.append(("transport-size:sequence", f"receives on one socket with sizes {[sz for _, sz in seq_cases[cid]]} of datagrams {[ln for ln, _ in seq_cases[cid]]}: got {i[:200]}, each must be the datagram cut at the size asked for: {want}", c, i))
+            return divs, fails
         if cid in famreal:
             want_res, want_sent, blocked, ms, fam_ = famreal[cid]
             ipf = i.split(" ;; ")
